@@ -161,14 +161,15 @@ Lemma wfb_wf : forall v, wfb v = true -> wf v.
 Proof.
   induction v as [b|n|c z|bits|bs|e l IH|fs IH] using tval_ind'; intros H.
   - exact I.
-  - cbn in *. lia.
+  - cbn [wfb] in H. cbn [wf]. now apply N.ltb_lt.
   - cbn [wfb] in H. apply andb_true_iff in H. destruct H as [Hc Hz]. split; [|now apply in_sint64b_ok].
-    unfold T_I16, T_I32, T_I64 in *. lia.
-  - cbn in *. lia.
-  - cbn [wfb wf] in *. lia.
+    rewrite !orb_true_iff, !N.eqb_eq in Hc. tauto.
+  - cbn [wfb] in H. cbn [wf]. now apply N.ltb_lt.
+  - cbn [wfb] in H. cbn [wf]. now apply N.ltb_lt.
   - apply wf_list. cbn [wfb] in H. rewrite !andb_true_iff in H.
-    destruct H as ((((H1 & H2) & H3) & H4) & H5). unfold T_MAP in *.
-    repeat split; try lia.
+    destruct H as ((((H1 & H2) & H3) & H4) & H5).
+    apply N.leb_le in H1, H2. apply N.ltb_lt in H4. apply negb_true_iff, N.eqb_neq in H3.
+    split; [split; [split; assumption|assumption]|]. split; [assumption|].
     rewrite forallb_forall in H5. rewrite Forall_forall in IH. apply Forall_forall. intros x Hx.
     specialize (H5 x Hx). apply andb_true_iff in H5. destruct H5 as [Hc Hw].
     split; [now apply code_okb_ok|]. now apply IH.
@@ -185,7 +186,8 @@ Proof. reflexivity. Qed.
 
 Lemma need_list_elem l : forall x, In x l -> (need x <= fold_right (fun x a => Nat.max (need x) a) 0%nat l)%nat.
 Proof.
-  induction l as [|y l IH]; intros x [->|Hx]; cbn [fold_right]; [lia|]. specialize (IH x Hx). lia.
+  induction l as [|y l IH]; intros x Hx; [destruct Hx|].
+  destruct Hx as [->|Hx]; cbn [fold_right]; [lia|]. specialize (IH x Hx). lia.
 Qed.
 
 Lemma need_struct_bound (fs : list (Z * tval)) base :
@@ -227,12 +229,12 @@ Proof.
     inversion Hfs as [|? ? (Hid & Hw & Hx) Hfs']; subst. cbn [fst snd] in *. cbn [length] in Hk.
     assert (Hrest : dec_fields f k id (enc_fields id fs ++ rest) = Some (fs, rest)) by (apply IH; auto; lia).
     destruct x as [b|n|c z|bits|bs|e l|gs] eqn:Ex.
-    + cbn [enc_fields]. rewrite <- app_assoc.
+    1:{ cbn [enc_fields]. rewrite <- app_assoc.
       destruct (field_header_dec last id (if b then T_TRUE else T_FALSE) (enc_fields id fs ++ rest))
         as (h & r & Eh & Hnz & Hm & Hidr); [destruct b; unfold T_TRUE, T_FALSE; lia|exact Hid|].
       rewrite Eh. cbn [dec_fields_with]. rewrite Hnz. cbv zeta. rewrite Hidr, Hm.
-      destruct b; cbn [N.eqb T_TRUE T_FALSE Pos.eqb]; rewrite Hrest; reflexivity.
-    + all: rewrite <- Ex in *.
+      destruct b; cbn [N.eqb T_TRUE T_FALSE Pos.eqb]; rewrite Hrest; reflexivity. }
+      all: rewrite <- Ex in *.
       all: assert (Hnb : (type_code x =? T_TRUE) = false /\ (type_code x =? T_FALSE) = false)
              by (apply type_code_not_bool; [intros b' Hb'; rewrite Ex in Hb'; discriminate|exact Hw]).
       all: destruct Hnb as [Hn1 Hn2].
@@ -283,4 +285,1166 @@ Lemma decode_thrift_encode (t : tval) (rest : bytes) :
 Proof.
   intros Hw Hn [fs ->]. unfold decode_thrift, thrift_fuel.
   apply dec_val_encode_need; [now apply wfb_wf|now apply Nat.leb_le|reflexivity].
+Qed.
+
+(** * Page headers *)
+
+Lemma enc_fields_len : forall fs last, (1 <= length (enc_fields last fs))%nat.
+Proof.
+  induction fs as [|[id x] r IH]; intros last; [cbn; lia|].
+  specialize (IH id). destruct x; cbn [enc_fields]; rewrite !app_length; lia.
+Qed.
+
+Lemma header_bytes_nonempty p : (1 <= length (page_header_bytes p))%nat.
+Proof. unfold page_header_bytes, header_tree. rewrite encode_struct. apply enc_fields_len. Qed.
+
+Lemma header_window_N : N.of_nat SpecDecoder.header_window = 4096.
+Proof. reflexivity. Qed.
+
+Lemma page_ok_parts d p : page_ok d p = true ->
+  wfb (header_tree p) = true /\ (need (header_tree p) <=? 64)%nat = true /\ header_size p <= 4096.
+Proof.
+  unfold page_ok. rewrite !andb_true_iff. intros ((((_ & _) & Hw) & Hn) & Hh).
+  repeat split; try assumption. unfold hdr_window in Hh. lia.
+Qed.
+
+Lemma decode_header_page d p tail : page_ok d p = true ->
+  decode_header (page_bytes p ++ tail) =
+  Some (header_tree p, length (page_header_bytes p), pg_body p ++ tail).
+Proof.
+  intros Hok. destruct (page_ok_parts d p Hok) as (Hw & Hn & Hh).
+  unfold decode_header, page_bytes. rewrite <- app_assoc.
+  set (hdr := page_header_bytes p) in *. set (X := pg_body p ++ tail).
+  assert (Hlen : (length hdr <= SpecDecoder.header_window)%nat).
+  { pose proof header_window_N. unfold header_size, sizeN in Hh. fold hdr in Hh. lia. }
+  rewrite firstn_app, (firstn_all2 hdr) by exact Hlen.
+  subst hdr. unfold page_header_bytes at 1.
+  rewrite decode_thrift_encode; [|exact Hw|exact Hn|unfold header_tree; eauto].
+  fold (page_header_bytes p).
+  replace (length (page_header_bytes p ++ firstn (SpecDecoder.header_window - length (page_header_bytes p)) X)
+           - length (firstn (SpecDecoder.header_window - length (page_header_bytes p)) X))%nat
+    with (length (page_header_bytes p)) by (rewrite app_length; lia).
+  now rewrite skipn_app_exact.
+Qed.
+
+Lemma header_comp p : nat_of_field 3 (header_tree p) = length (pg_body p).
+Proof.
+  unfold nat_of_field, header_tree, get_int, get. cbn [field PH_Type PH_UncompressedPageSize PH_CompressedPageSize Z.eqb Pos.eqb].
+  unfold i32, zdef, sizeN. lia.
+Qed.
+
+Lemma header_uncomp p : n_of_field 2 (header_tree p) = pg_uncomp p.
+Proof.
+  unfold n_of_field, header_tree, get_int, get. cbn [field PH_Type PH_UncompressedPageSize Z.eqb Pos.eqb].
+  unfold i32, zdef. lia.
+Qed.
+
+Lemma header_type p : get_int 1 (header_tree p) = Some (pg_type p).
+Proof. reflexivity. Qed.
+
+(** the inner header (data page v1 / v2 / dictionary) carries the value count *)
+Definition header_nvalues (h : tval) : N :=
+  let ty := zdef (get_int 1 h) (-1) in
+  let inner := if (ty =? 2)%Z then get 7 h else if (ty =? 3)%Z then get 8 h else get 5 h in
+  match inner with Some dh => n_of_field 1 dh | None => 0 end.
+
+Lemma field_opt_z32_skip id id' z rest : id <> id' ->
+  field id (opt_z32 id' z ++ rest) = field id rest.
+Proof.
+  intros H. unfold opt_z32. destruct (z =? 0)%Z; [reflexivity|].
+  cbn [app field]. destruct (Z.eqb_spec id' id); [congruence|reflexivity].
+Qed.
+
+Lemma header_inner p :
+  get (fst (inner_header p)) (header_tree p) = Some (snd (inner_header p)).
+Proof.
+  unfold header_tree, get.
+  assert (H : fst (inner_header p) = 5%Z \/ fst (inner_header p) = 7%Z \/ fst (inner_header p) = 8%Z).
+  { unfold inner_header. destruct (pg_type p =? 2)%Z; [|destruct (pg_type p =? 3)%Z]; cbn [fst]; auto. }
+  destruct (inner_header p) as [iid it]. cbn [fst snd] in *.
+  destruct H as [->|[->| ->]]; cbn [field PH_Type PH_UncompressedPageSize PH_CompressedPageSize Z.eqb Pos.eqb];
+    (rewrite field_opt_z32_skip by (unfold PH_CRC; lia)); reflexivity.
+Qed.
+
+Lemma header_nvalues_page p : header_nvalues (header_tree p) = pg_nvalues p.
+Proof.
+  unfold header_nvalues. rewrite header_type. cbn [zdef].
+  pose proof (header_inner p) as H. unfold inner_header in *.
+  destruct (pg_type p =? 2)%Z; [|destruct (pg_type p =? 3)%Z]; cbn [fst snd] in H;
+    unfold PH_DictionaryPageHeader, PH_DataPageHeaderV2, PH_DataPageHeader in H; rewrite H;
+    unfold n_of_field, get_int, get; cbn [field DICT_NumValues V2_NumValues DPH_NumValues Z.eqb Pos.eqb];
+    unfold i32, zdef; lia.
+Qed.
+
+(** * Walking the page headers of a chunk
+
+    [walk_pages] is the page loop of [SpecDecoder.decode_pages] without the
+    decoding of the bodies: header, [compressed_page_size] bytes, next page,
+    until the chunk's bytes are used up exactly. *)
+
+Record hpage := { h_offset : N; h_hlen : nat; h_comp : nat; h_header : tval }.
+
+Fixpoint walk_pages (fuel : nat) (rest : bytes) (off : N) : option (list hpage) :=
+  match fuel with
+  | O => None
+  | S f =>
+      match rest with
+      | [] => Some []
+      | _ :: _ =>
+          match decode_header rest with
+          | None => None
+          | Some (h, hlen, after) =>
+              let comp := nat_of_field 3 h in
+              match sub after 0 comp with
+              | None => None
+              | Some _ =>
+                  match walk_pages f (skipn (hlen + comp) rest) (off + N.of_nat (hlen + comp)) with
+                  | Some ps => Some ({| h_offset := off; h_hlen := hlen; h_comp := comp; h_header := h |} :: ps)
+                  | None => None
+                  end
+              end
+          end
+      end
+  end.
+
+(* what the writer put there *)
+Fixpoint written_pages (off : N) (ps : list page_in) : list hpage :=
+  match ps with
+  | [] => []
+  | p :: r =>
+      {| h_offset := off; h_hlen := length (page_header_bytes p); h_comp := length (pg_body p);
+         h_header := header_tree p |} :: written_pages (off + comp_size p) r
+  end.
+
+Definition page_ok_any (p : page_in) : bool := page_ok true p || page_ok false p.
+
+Lemma page_ok_any_of d p : page_ok d p = true -> page_ok_any p = true.
+Proof. unfold page_ok_any. destruct d; intros ->; [reflexivity|apply orb_true_r]. Qed.
+
+Lemma comp_size_nat p : comp_size p = N.of_nat (length (page_header_bytes p) + length (pg_body p)).
+Proof. unfold comp_size, header_size, sizeN. lia. Qed.
+
+Lemma page_bytes_size p : sizeN (page_bytes p) = comp_size p.
+Proof. unfold page_bytes. rewrite sizeN_app. reflexivity. Qed.
+
+Theorem walk_pages_written : forall ps fuel off,
+  forallb page_ok_any ps = true -> (length ps < fuel)%nat ->
+  walk_pages fuel (concat (map page_bytes ps)) off = Some (written_pages off ps).
+Proof.
+  induction ps as [|p ps IH]; intros fuel off Hok Hf.
+  - destruct fuel; [cbn in Hf; lia|]. reflexivity.
+  - destruct fuel as [|f]; [cbn in Hf; lia|]. cbn [length] in Hf.
+    cbn [forallb] in Hok. apply andb_true_iff in Hok. destruct Hok as [Hp Hps].
+    cbn [map concat written_pages].
+    set (X := concat (map page_bytes ps)).
+    destruct (page_bytes p ++ X) as [|b0 r0] eqn:E.
+    { exfalso. apply (f_equal (@length _)) in E. unfold page_bytes in E. rewrite !app_length in E.
+      pose proof (header_bytes_nonempty p). cbn [length] in E. lia. }
+    cbn [walk_pages]. rewrite <- E.
+    assert (Hd : exists d, page_ok d p = true).
+    { unfold page_ok_any in Hp. apply orb_true_iff in Hp. destruct Hp; eauto. }
+    destruct Hd as [d Hd]. rewrite (decode_header_page d p X Hd). cbv zeta.
+    rewrite header_comp.
+    assert (Hsub : sub (pg_body p ++ X) 0 (length (pg_body p)) = Some (firstn (length (pg_body p)) (pg_body p ++ X))).
+    { unfold sub. cbn [Nat.add skipn]. rewrite app_length.
+      destruct (Nat.leb_spec (length (pg_body p)) (length (pg_body p) + length X)); [reflexivity|lia]. }
+    rewrite Hsub.
+    assert (Hskip : skipn (length (page_header_bytes p) + length (pg_body p)) (page_bytes p ++ X) = X).
+    { apply skipn_app_len. unfold page_bytes. now rewrite app_length. }
+    rewrite Hskip. rewrite <- comp_size_nat.
+    subst X. rewrite IH by (auto; lia). reflexivity.
+Qed.
+
+Lemma written_pages_app off a b :
+  written_pages off (a ++ b) = written_pages off a ++ written_pages (off + fold_left N.add (map comp_size a) 0) b.
+Proof.
+  revert off. induction a as [|p a IH]; intros off.
+  - cbn. f_equal. lia.
+  - cbn [app written_pages map]. rewrite fold_add_cons, IH, N.add_assoc. reflexivity.
+Qed.
+
+Lemma pages_bytes_size ps : sizeN (concat (map page_bytes ps)) = fold_left N.add (map comp_size ps) 0.
+Proof.
+  induction ps as [|p ps IH]; [reflexivity|].
+  cbn [map concat]. rewrite sizeN_app, fold_add_cons, IH, page_bytes_size. reflexivity.
+Qed.
+
+Lemma written_sizes off ps :
+  map (fun hp => N.of_nat (h_hlen hp + h_comp hp)) (written_pages off ps) = map comp_size ps.
+Proof.
+  revert off. induction ps as [|p ps IH]; intros off; [reflexivity|].
+  cbn [written_pages map h_hlen h_comp]. now rewrite IH, <- comp_size_nat.
+Qed.
+
+(** * Where the threaded offsets point: item [j] of a section starts where
+      the items before it end *)
+
+Lemma lay_chunks_firstn : forall cs j off bl ci oi,
+  lay_chunks off bl ci oi (firstn j cs) = firstn j (lay_chunks off bl ci oi cs).
+Proof.
+  induction cs as [|c cs IH]; intros [|j] off bl ci oi; try reflexivity.
+  cbn [firstn lay_chunks]. f_equal. apply IH.
+Qed.
+
+Lemma lay_chunks_length : forall cs off bl ci oi, length (lay_chunks off bl ci oi cs) = length cs.
+Proof. induction cs as [|c cs IH]; intros; [reflexivity|]. cbn [lay_chunks length]. now rewrite IH. Qed.
+
+Lemma oi_bytes_cons t ts : oi_bytes (t :: ts) = encode t ++ oi_bytes ts.
+Proof. reflexivity. Qed.
+
+Lemma lay_chunks_nth : forall cs j c off bl ci oi,
+  nth_error cs j = Some c ->
+  let pre := firstn j cs in
+  let off' := off + sizeN (pages_bytes pre) in
+  nth_error (lay_chunks off bl ci oi cs) j =
+  Some (chunk_tree off' (bl + sizeN (blooms_bytes pre)) (ci + sizeN (cindex_bytes pre))
+          (oi + sizeN (oi_bytes (map snd (lay_chunks off bl ci oi pre))))
+          (sizeN (encode (oindex_tree off' c))) c,
+        oindex_tree off' c).
+Proof.
+  induction cs as [|c0 cs IH]; intros [|j] c off bl ci oi H; cbn [nth_error] in H; try discriminate.
+  - inversion H. subst c0. cbn [firstn lay_chunks nth_error map]. cbv zeta.
+    unfold pages_bytes, blooms_bytes, cindex_bytes, oi_bytes. cbn [map concat].
+    rewrite sizeN_nil, !N.add_0_r. reflexivity.
+  - cbv zeta. cbn [firstn lay_chunks nth_error]. rewrite (IH j c _ _ _ _ H). cbv zeta.
+    cbn [map snd]. rewrite oi_bytes_cons.
+    unfold pages_bytes, blooms_bytes, cindex_bytes. cbn [map concat].
+    rewrite !sizeN_app, !N.add_assoc. reflexivity.
+Qed.
+
+Lemma lay_groups_firstn : forall gs i off ci oi ord,
+  lay_groups off ci oi ord (firstn i gs) = firstn i (lay_groups off ci oi ord gs).
+Proof.
+  induction gs as [|g gs IH]; intros [|i] off ci oi ord; try reflexivity.
+  cbn [firstn lay_groups]. cbv zeta. f_equal. apply IH.
+Qed.
+
+Lemma lay_groups_length : forall gs off ci oi ord, length (lay_groups off ci oi ord gs) = length gs.
+Proof. induction gs as [|g gs IH]; intros; [reflexivity|]. cbn [lay_groups length]. cbv zeta. cbn [length]. now rewrite IH. Qed.
+
+Definition groups_bytes_of (gs : list group_in) : bytes := concat (map group_bytes gs).
+Definition cindexes_bytes_of (gs : list group_in) : bytes := concat (map (fun g => cindex_bytes (gi_chunks g)) gs).
+
+Lemma oindexes_of_cons gl lg : oindexes_of (gl :: lg) = oi_bytes (snd gl) ++ oindexes_of lg.
+Proof. reflexivity. Qed.
+
+Lemma lay_groups_nth : forall gs i g off ci oi ord,
+  nth_error gs i = Some g ->
+  let pre := firstn i gs in
+  let off' := off + sizeN (groups_bytes_of pre) in
+  let ci' := ci + sizeN (cindexes_bytes_of pre) in
+  let oi' := oi + sizeN (oindexes_of (lay_groups off ci oi ord pre)) in
+  nth_error (lay_groups off ci oi ord gs) i =
+  Some (group_tree off' (ord + N.of_nat i) g (map fst (group_cols off' ci' oi' g)),
+        map snd (group_cols off' ci' oi' g)).
+Proof.
+  induction gs as [|g0 gs IH]; intros [|i] g off ci oi ord H; cbn [nth_error] in H; try discriminate.
+  - inversion H. subst g0. cbn [firstn lay_groups nth_error]. cbv zeta.
+    unfold groups_bytes_of, cindexes_bytes_of, oindexes_of. cbn [map concat].
+    rewrite sizeN_nil, !N.add_0_r. reflexivity.
+  - cbv zeta. cbn [firstn lay_groups nth_error]. cbv zeta. rewrite (IH i g _ _ _ _ H). cbv zeta.
+    rewrite oindexes_of_cons. cbn [snd].
+    unfold groups_bytes_of, cindexes_bytes_of. cbn [map concat].
+    rewrite !sizeN_app, !N.add_assoc.
+    replace (ord + 1 + N.of_nat i) with (ord + N.of_nat (S i)) by lia. reflexivity.
+Qed.
+
+(** * Reading the fields of the trees the accounting built *)
+
+Lemma field_app id a b :
+  field id (a ++ b) = match field id a with Some v => Some v | None => field id b end.
+Proof.
+  induction a as [|[i v] a IH]; [reflexivity|]. cbn [app field]. destruct (i =? id)%Z; [reflexivity|exact IH].
+Qed.
+
+Lemma field_ids_between lo hi fs id :
+  ids_between lo hi fs = true -> (id <= lo \/ hi <= id)%Z -> field id fs = None.
+Proof.
+  unfold ids_between. intros H Hid. induction fs as [|[i v] fs IH]; [reflexivity|].
+  cbn [forallb fst] in H. apply andb_true_iff in H. destruct H as [Hi Hfs].
+  cbn [field]. destruct (Z.eqb_spec i id); [lia|]. now apply IH.
+Qed.
+
+Lemma field_opt_i64 id id' n rest :
+  field id (opt_i64 id' n ++ rest) =
+  if (id' =? id)%Z && negb (n =? 0) then Some (i64 n) else field id rest.
+Proof.
+  unfold opt_i64. destruct (n =? 0); [now rewrite andb_false_r|].
+  cbn [app field]. rewrite andb_true_r. reflexivity.
+Qed.
+
+Lemma field_opt_i32 id id' n rest :
+  field id (opt_i32 id' n ++ rest) =
+  if (id' =? id)%Z && negb (n =? 0) then Some (i32 n) else field id rest.
+Proof.
+  unfold opt_i32. destruct (n =? 0); [now rewrite andb_false_r|].
+  cbn [app field]. rewrite andb_true_r. reflexivity.
+Qed.
+
+Lemma n_of_i64 n : Z.to_N (zdef (Some (Z.of_N n)) 0) = n.
+Proof. cbn [zdef]. lia. Qed.
+
+(* an integer field that is either present with value [n], or absent with [n = 0] *)
+Lemma n_of_field_opt id fs (n : N) c :
+  field id fs = (if negb (n =? 0) then Some (TInt c (Z.of_N n)) else None) ->
+  n_of_field id (TStruct fs) = n.
+Proof.
+  intros H. unfold n_of_field, get_int, get. rewrite H.
+  destruct (N.eqb_spec n 0); cbn [negb zdef]; lia.
+Qed.
+
+Section Meta.
+  Variables (off bl : N) (c : chunk_in).
+  Hypothesis Hok : chunk_ok c = true.
+
+  Let Hparts : ids_between 0 CM_NumValues (ck_head c) = true /\
+               ids_between CM_TotalCompressedSize CM_DataPageOffset (ck_kv c) = true /\
+               ids_between CM_DictionaryPageOffset CM_BloomFilterOffset (ck_stats c) = true /\
+               ids_between CM_BloomFilterLength (2 ^ 15) (ck_tail c) = true.
+  Proof.
+    unfold chunk_ok in Hok. rewrite !andb_true_iff in Hok. tauto.
+  Qed.
+
+  Lemma meta_num_values : n_of_field 5 (meta_tree off bl c) = chunk_num_values c.
+  Proof.
+    destruct Hparts as (H1 & _). unfold n_of_field, get_int, get, meta_tree.
+    rewrite field_app, (field_ids_between _ _ _ 5%Z H1) by (unfold CM_NumValues; lia).
+    cbn [field CM_NumValues Z.eqb Pos.eqb]. apply n_of_i64.
+  Qed.
+
+  Lemma meta_total_uncomp : n_of_field 6 (meta_tree off bl c) = chunk_total_uncomp c.
+  Proof.
+    destruct Hparts as (H1 & _). unfold n_of_field, get_int, get, meta_tree.
+    rewrite field_app, (field_ids_between _ _ _ 6%Z H1) by (unfold CM_NumValues; lia).
+    cbn [field CM_NumValues CM_TotalUncompressedSize Z.eqb Pos.eqb]. apply n_of_i64.
+  Qed.
+
+  Lemma meta_total_comp : n_of_field 7 (meta_tree off bl c) = chunk_total_comp c.
+  Proof.
+    destruct Hparts as (H1 & _). unfold n_of_field, get_int, get, meta_tree.
+    rewrite field_app, (field_ids_between _ _ _ 7%Z H1) by (unfold CM_NumValues; lia).
+    cbn [field CM_NumValues CM_TotalUncompressedSize CM_TotalCompressedSize Z.eqb Pos.eqb]. apply n_of_i64.
+  Qed.
+
+  Lemma meta_data_offset : n_of_field 9 (meta_tree off bl c) = data_offset off c.
+  Proof.
+    destruct Hparts as (H1 & H2 & _). unfold n_of_field, get_int, get, meta_tree.
+    rewrite field_app, (field_ids_between _ _ _ 9%Z H1) by (unfold CM_NumValues; lia).
+    cbn [field CM_NumValues CM_TotalUncompressedSize CM_TotalCompressedSize Z.eqb Pos.eqb].
+    rewrite field_app, (field_ids_between _ _ _ 9%Z H2) by (unfold CM_DataPageOffset; lia).
+    cbn [field CM_DataPageOffset Z.eqb Pos.eqb]. apply n_of_i64.
+  Qed.
+
+  Lemma meta_dict_offset : n_of_field 11 (meta_tree off bl c) = dict_offset off c.
+  Proof.
+    destruct Hparts as (H1 & H2 & H3 & H4).
+    apply (n_of_field_opt _ _ _ T_I64). unfold meta_tree.
+    rewrite field_app, (field_ids_between _ _ _ 11%Z H1) by (unfold CM_NumValues; lia).
+    cbn [field CM_NumValues CM_TotalUncompressedSize CM_TotalCompressedSize Z.eqb Pos.eqb].
+    rewrite field_app, (field_ids_between _ _ _ 11%Z H2) by (unfold CM_DataPageOffset; lia).
+    cbn [field CM_DataPageOffset Z.eqb Pos.eqb].
+    rewrite field_opt_i64. unfold CM_DictionaryPageOffset at 1. cbn [Z.eqb Pos.eqb andb].
+    destruct (negb (dict_offset off c =? 0)); [reflexivity|].
+    rewrite field_app, (field_ids_between _ _ _ 11%Z H3) by (unfold CM_DictionaryPageOffset; lia).
+    rewrite field_app.
+    assert (Hb : field 11 (match ck_bloom c with
+                           | [] => []
+                           | _ :: _ => opt_i64 CM_BloomFilterOffset bl ++ opt_i32 CM_BloomFilterLength (sizeN (ck_bloom c))
+                           end) = None).
+    { destruct (ck_bloom c); [reflexivity|]. rewrite field_opt_i64. unfold CM_BloomFilterOffset. cbn [Z.eqb Pos.eqb andb].
+      rewrite <- (app_nil_r (opt_i32 _ _)), field_opt_i32. reflexivity. }
+    rewrite Hb. apply (field_ids_between _ _ _ 11%Z H4). unfold CM_BloomFilterLength. lia.
+  Qed.
+
+  Lemma dict_bytes_pos : ck_dict c <> None -> 0 < sizeN (dict_bytes c).
+  Proof.
+    unfold dict_bytes, dict_pages. destruct (ck_dict c) as [d|]; [intros _|congruence].
+    cbn [map concat]. rewrite app_nil_r. unfold page_bytes. rewrite sizeN_app.
+    pose proof (header_bytes_nonempty d). unfold sizeN. lia.
+  Qed.
+
+  (* the decoder starts reading the chunk where the writer started writing it *)
+  Lemma meta_chunk_start : 0 < off -> chunk_start (meta_tree off bl c) = off.
+  Proof.
+    intros Hoff. unfold chunk_start. rewrite meta_data_offset, meta_dict_offset.
+    unfold dict_offset, data_offset.
+    destruct (ck_dict c) as [d|] eqn:Ed.
+    - assert (0 < sizeN (dict_bytes c)) by (apply dict_bytes_pos; congruence).
+      destruct (N.ltb_spec 0 off); [|lia]. destruct (N.ltb_spec off (off + sizeN (dict_bytes c))); [reflexivity|lia].
+    - cbn [N.ltb N.compare andb]. unfold dict_bytes, dict_pages. rewrite Ed. cbn [map concat]. rewrite sizeN_nil. lia.
+  Qed.
+
+  Lemma chunk_total_comp_size : chunk_total_comp c = sizeN (chunk_bytes c).
+  Proof.
+    unfold chunk_total_comp, chunk_bytes, dict_bytes. rewrite map_app, fold_add_app, sizeN_app, !pages_bytes_size. lia.
+  Qed.
+End Meta.
+
+Lemma nat_of_n_of_field id v : nat_of_field id v = N.to_nat (n_of_field id v).
+Proof. unfold nat_of_field, n_of_field. now rewrite Z_N_nat. Qed.
+
+Section ChunkTree.
+  Variables (off bl ci oi oilen : N) (c : chunk_in).
+
+  Lemma chunk_tree_meta : get 3 (chunk_tree off bl ci oi oilen c) = Some (meta_tree off bl c).
+  Proof. reflexivity. Qed.
+
+  Let cindex_part :=
+    match ck_cindex c with
+    | [] => []
+    | _ :: _ => opt_i64 CC_ColumnIndexOffset ci ++ opt_i32 CC_ColumnIndexLength (sizeN (ck_cindex c))
+    end.
+
+  Let cindex_part_none id : (id < 6)%Z -> field id cindex_part = None.
+  Proof.
+    intros H. unfold cindex_part. destruct (ck_cindex c); [reflexivity|].
+    rewrite field_opt_i64. destruct (Z.eqb_spec CC_ColumnIndexOffset id); [unfold CC_ColumnIndexOffset in *; lia|].
+    cbn [andb]. rewrite <- (app_nil_r (opt_i32 _ _)), field_opt_i32.
+    destruct (Z.eqb_spec CC_ColumnIndexLength id); [unfold CC_ColumnIndexLength in *; lia|]. reflexivity.
+  Qed.
+
+  Lemma chunk_tree_oi_offset : n_of_field 4 (chunk_tree off bl ci oi oilen c) = oi.
+  Proof.
+    apply (n_of_field_opt _ _ _ T_I64). unfold chunk_tree.
+    cbn [field CC_FileOffset CC_MetaData Z.eqb Pos.eqb].
+    rewrite field_opt_i64. unfold CC_OffsetIndexOffset at 1. cbn [Z.eqb Pos.eqb andb].
+    destruct (negb (oi =? 0)); [reflexivity|].
+    rewrite field_opt_i32. unfold CC_OffsetIndexLength at 1. cbn [Z.eqb Pos.eqb andb].
+    apply cindex_part_none. lia.
+  Qed.
+
+  Lemma chunk_tree_oi_length : n_of_field 5 (chunk_tree off bl ci oi oilen c) = oilen.
+  Proof.
+    apply (n_of_field_opt _ _ _ T_I32). unfold chunk_tree.
+    cbn [field CC_FileOffset CC_MetaData Z.eqb Pos.eqb].
+    rewrite field_opt_i64. unfold CC_OffsetIndexOffset at 1. cbn [Z.eqb Pos.eqb andb].
+    rewrite field_opt_i32. unfold CC_OffsetIndexLength at 1. cbn [Z.eqb Pos.eqb andb].
+    destruct (negb (oilen =? 0)); [reflexivity|].
+    apply cindex_part_none. lia.
+  Qed.
+
+  Lemma chunk_tree_ci_offset :
+    n_of_field 6 (chunk_tree off bl ci oi oilen c) = match ck_cindex c with [] => 0 | _ => ci end.
+  Proof.
+    apply (n_of_field_opt _ _ _ T_I64). unfold chunk_tree.
+    cbn [field CC_FileOffset CC_MetaData Z.eqb Pos.eqb].
+    rewrite field_opt_i64. unfold CC_OffsetIndexOffset at 1. cbn [Z.eqb Pos.eqb andb].
+    rewrite field_opt_i32. unfold CC_OffsetIndexLength at 1. cbn [Z.eqb Pos.eqb andb].
+    destruct (ck_cindex c); [reflexivity|].
+    rewrite field_opt_i64. unfold CC_ColumnIndexOffset at 1. cbn [Z.eqb Pos.eqb andb].
+    destruct (negb (ci =? 0)); [reflexivity|].
+    rewrite <- (app_nil_r (opt_i32 _ _)), field_opt_i32. reflexivity.
+  Qed.
+
+  Lemma chunk_tree_ci_length : n_of_field 7 (chunk_tree off bl ci oi oilen c) = sizeN (ck_cindex c).
+  Proof.
+    apply (n_of_field_opt _ _ _ T_I32). unfold chunk_tree.
+    cbn [field CC_FileOffset CC_MetaData Z.eqb Pos.eqb].
+    rewrite field_opt_i64. unfold CC_OffsetIndexOffset at 1. cbn [Z.eqb Pos.eqb andb].
+    rewrite field_opt_i32. unfold CC_OffsetIndexLength at 1. cbn [Z.eqb Pos.eqb andb].
+    destruct (ck_cindex c) eqn:E; [reflexivity|]. rewrite <- E.
+    rewrite field_opt_i64. unfold CC_ColumnIndexOffset at 1. cbn [Z.eqb Pos.eqb andb].
+    rewrite <- (app_nil_r (opt_i32 _ _)), field_opt_i32. unfold CC_ColumnIndexLength at 1. cbn [Z.eqb Pos.eqb andb].
+    destruct (negb (sizeN (ck_cindex c) =? 0)); reflexivity.
+  Qed.
+End ChunkTree.
+
+Section GroupTree.
+  Variables (off ord : N) (g : group_in) (cols : list tval).
+  Hypothesis Hsort : ids_between RG_NumRows RG_FileOffset (gi_sorting g) = true.
+
+  Lemma group_tree_columns : get_list 1 (group_tree off ord g cols) = Some cols.
+  Proof. reflexivity. Qed.
+
+  Lemma group_tree_total_byte_size :
+    n_of_field 2 (group_tree off ord g cols) = fold_left N.add (map chunk_total_uncomp (gi_chunks g)) 0.
+  Proof. unfold n_of_field, get_int, get, group_tree. cbn [field RG_Columns RG_TotalByteSize Z.eqb Pos.eqb]. apply n_of_i64. Qed.
+
+  Lemma group_tree_num_rows : n_of_field 3 (group_tree off ord g cols) = group_num_rows g.
+  Proof. unfold n_of_field, get_int, get, group_tree. cbn [field RG_Columns RG_TotalByteSize RG_NumRows Z.eqb Pos.eqb]. apply n_of_i64. Qed.
+
+  Lemma group_tree_file_offset : n_of_field 5 (group_tree off ord g cols) = off.
+  Proof.
+    apply (n_of_field_opt _ _ _ T_I64). unfold group_tree.
+    cbn [field RG_Columns RG_TotalByteSize RG_NumRows Z.eqb Pos.eqb].
+    rewrite field_app, (field_ids_between _ _ _ 5%Z Hsort) by (unfold RG_FileOffset; lia).
+    rewrite field_opt_i64. unfold RG_FileOffset at 1. cbn [Z.eqb Pos.eqb andb].
+    destruct (negb (off =? 0)); [reflexivity|].
+    rewrite field_opt_i64. reflexivity.
+  Qed.
+
+  Lemma group_tree_total_compressed_size :
+    n_of_field 6 (group_tree off ord g cols) = fold_left N.add (map chunk_total_comp (gi_chunks g)) 0.
+  Proof.
+    apply (n_of_field_opt _ _ _ T_I64). unfold group_tree.
+    cbn [field RG_Columns RG_TotalByteSize RG_NumRows Z.eqb Pos.eqb].
+    rewrite field_app, (field_ids_between _ _ _ 6%Z Hsort) by (unfold RG_FileOffset; lia).
+    rewrite field_opt_i64. unfold RG_FileOffset at 1. cbn [Z.eqb Pos.eqb andb].
+    rewrite field_opt_i64. unfold RG_TotalCompressedSize at 1. cbn [Z.eqb Pos.eqb andb].
+    destruct (negb (_ =? 0)); reflexivity.
+  Qed.
+End GroupTree.
+
+Lemma footer_row_groups fi : get_list 4 (footer_tree fi) = Some (map fst (laid_groups fi)).
+Proof. reflexivity. Qed.
+
+Lemma footer_num_rows fi : n_of_field 3 (footer_tree fi) = fold_left N.add (map group_num_rows (fi_groups fi)) 0.
+Proof.
+  unfold n_of_field, get_int, get, footer_tree, footer_of_groups. cbn [field FMD_Version FMD_Schema FMD_NumRows Z.eqb Pos.eqb].
+  apply n_of_i64.
+Qed.
+
+(** * (a) The footer *)
+
+Lemma footer_found (P F : bytes) (t : tval) :
+  firstn 4 P = SpecDecoder.magic -> sizeN F < 2 ^ 32 -> decode_thrift F = Some (t, []) ->
+  SpecDecoder.footer_of (mk_fbytes (P ++ F ++ to_le 4 (sizeN F) ++ SpecDecoder.magic)) = Some (t, sizeN P).
+Proof.
+  intros HP HF Hdec.
+  assert (HP4 : (4 <= length P)%nat).
+  { apply (f_equal (@length _)) in HP. rewrite firstn_length in HP. cbn [SpecDecoder.magic length] in HP. lia. }
+  set (L := to_le 4 (sizeN F)). set (file := P ++ F ++ L ++ SpecDecoder.magic).
+  assert (HL : length L = 4%nat) by apply to_le_length.
+  assert (Hn : fb_len (mk_fbytes file) = sizeN P + sizeN F + 8).
+  { unfold mk_fbytes. cbn [fb_len]. subst file. rewrite !app_length, HL. cbn [SpecDecoder.magic length]. unfold sizeN. lia. }
+  unfold SpecDecoder.footer_of. rewrite Hn.
+  destruct (N.ltb_spec (sizeN P + sizeN F + 8) 12) as [Hlt|_]; [unfold sizeN in Hlt; lia|].
+  (* leading magic *)
+  assert (H1 : fsub (mk_fbytes file) 0 4 = Some SpecDecoder.magic).
+  { change 0 with (N.of_nat 0). rewrite fsub_mk_fbytes.
+    - cbn [skipn]. subst file. rewrite firstn_app. replace (4 - length P)%nat with 0%nat by lia.
+      rewrite firstn_O, app_nil_r, HP. reflexivity.
+    - subst file. rewrite app_length. lia. }
+  (* trailing magic *)
+  assert (H2 : fsub (mk_fbytes file) (sizeN P + sizeN F + 8 - 4) 4 = Some SpecDecoder.magic).
+  { replace (sizeN P + sizeN F + 8 - 4) with (sizeN (P ++ F ++ L)).
+    2:{ rewrite !sizeN_app. unfold sizeN at 3. rewrite HL. lia. }
+    change 4%nat with (length SpecDecoder.magic).
+    replace file with ((P ++ F ++ L) ++ SpecDecoder.magic ++ []) by (subst file; now rewrite app_nil_r, <- !app_assoc).
+    apply fsub_at. }
+  (* footer length *)
+  assert (H3 : fsub (mk_fbytes file) (sizeN P + sizeN F + 8 - 8) 4 = Some L).
+  { replace (sizeN P + sizeN F + 8 - 8) with (sizeN (P ++ F)) by (rewrite sizeN_app; lia).
+    rewrite <- HL at 1.
+    replace file with ((P ++ F) ++ L ++ SpecDecoder.magic) by (subst file; now rewrite <- !app_assoc).
+    apply fsub_at. }
+  rewrite H1, H2, H3. rewrite N.eqb_refl. cbn [andb].
+  assert (Hflen : of_le L = sizeN F).
+  { subst L. apply of_le_to_le. replace (256 ^ N.of_nat 4) with (2 ^ 32) by reflexivity. exact HF. }
+  rewrite Hflen.
+  destruct (N.leb_spec (sizeN F + 12) (sizeN P + sizeN F + 8)) as [_|Hc]; [|unfold sizeN in Hc; lia].
+  replace (sizeN P + sizeN F + 8 - 8 - sizeN F) with (sizeN P) by lia.
+  replace (N.to_nat (sizeN F)) with (length F) by (unfold sizeN; lia).
+  subst file. rewrite fsub_at, Hdec. reflexivity.
+Qed.
+
+Lemma file_ok_parts fi : file_ok fi = true ->
+  forallb group_ok (fi_groups fi) = true /\
+  wfb (footer_tree fi) = true /\ (need (footer_tree fi) <=? 64)%nat = true /\
+  forallb (fun gl => forallb (fun oi => wfb oi && (need oi <=? 64)%nat) (snd gl)) (laid_groups fi) = true /\
+  sizeN (footer_bytes fi) < 2 ^ 32.
+Proof.
+  unfold file_ok, file_ok_with. cbv zeta. fold (footer_tree fi). fold (footer_bytes fi).
+  rewrite !andb_true_iff. intros (((((H1 & _) & H3) & H4) & H5) & H6).
+  repeat split; try assumption. now apply N.ltb_lt.
+Qed.
+
+Lemma layout_bytes_eq fi :
+  layout_bytes fi =
+  (file_magic ++ groups_bytes fi ++ cindexes_bytes fi ++ oindexes_bytes fi)
+  ++ footer_bytes fi ++ to_le 4 (sizeN (footer_bytes fi)) ++ file_magic.
+Proof. unfold layout_bytes, assemble. cbv zeta. now rewrite <- !app_assoc. Qed.
+
+Lemma footer_start_eq fi :
+  footer_start fi = sizeN (file_magic ++ groups_bytes fi ++ cindexes_bytes fi ++ oindexes_bytes fi).
+Proof. unfold footer_start, oindex_start, cindex_start. rewrite !sizeN_app. lia. Qed.
+
+Theorem layout_footer_found fi : file_ok fi = true ->
+  SpecDecoder.footer_of (mk_fbytes (layout_bytes fi)) = Some (footer_tree fi, footer_start fi).
+Proof.
+  intros Hok. destruct (file_ok_parts fi Hok) as (_ & Hw & Hn & _ & Hlen).
+  rewrite layout_bytes_eq, footer_start_eq.
+  apply footer_found; [reflexivity|exact Hlen|].
+  unfold footer_bytes. rewrite <- (app_nil_r (encode (footer_tree fi))).
+  apply decode_thrift_encode; [exact Hw|exact Hn|unfold footer_tree, footer_of_groups; eauto].
+Qed.
+
+(** * Where things are in the file *)
+
+Definition at_offset (file : bytes) (off : N) (x : bytes) : Prop :=
+  exists pre post, file = pre ++ x ++ post /\ sizeN pre = off.
+
+Lemma at_offset_fsub file off x : at_offset file off x -> fsub (mk_fbytes file) off (length x) = Some x.
+Proof. intros (pre & post & -> & <-). apply fsub_at. Qed.
+
+Lemma at_offset_trans outer mid x o1 o2 :
+  at_offset outer o1 mid -> at_offset mid o2 x -> at_offset outer (o1 + o2) x.
+Proof.
+  intros (p1 & q1 & -> & <-) (p2 & q2 & -> & <-).
+  exists (p1 ++ p2), (q2 ++ q1). split; [now rewrite <- !app_assoc|apply sizeN_app].
+Qed.
+
+Lemma at_offset_mid a x b : at_offset (a ++ x ++ b) (sizeN a) x.
+Proof. exists a, b. split; reflexivity. Qed.
+
+Lemma at_offset_head x b : at_offset (x ++ b) 0 x.
+Proof. exists [], b. split; reflexivity. Qed.
+
+Lemma at_offset_concat {A} (f : A -> bytes) l j y :
+  nth_error l j = Some y -> at_offset (concat (map f l)) (sizeN (concat (map f (firstn j l)))) (f y).
+Proof. intros H. rewrite (concat_map_split f l j y H). apply at_offset_mid. Qed.
+
+(* the offsets the accounting gives to row group [i] and to column [j] of it *)
+Definition group_off (fi : file_in) (i : nat) : N :=
+  sizeN file_magic + sizeN (groups_bytes_of (firstn i (fi_groups fi))).
+Definition group_ci (fi : file_in) (i : nat) : N :=
+  cindex_start fi + sizeN (cindexes_bytes_of (firstn i (fi_groups fi))).
+Definition group_oi (fi : file_in) (i : nat) : N :=
+  oindex_start fi + sizeN (oindexes_of (firstn i (laid_groups fi))).
+Definition the_cols (fi : file_in) (i : nat) (g : group_in) : list (tval * tval) :=
+  group_cols (group_off fi i) (group_ci fi i) (group_oi fi i) g.
+
+Definition chunk_off (fi : file_in) (i : nat) (g : group_in) (j : nat) : N :=
+  group_off fi i + sizeN (pages_bytes (firstn j (gi_chunks g))).
+Definition chunk_bl (fi : file_in) (i : nat) (g : group_in) (j : nat) : N :=
+  group_off fi i + sizeN (pages_bytes (gi_chunks g)) + sizeN (blooms_bytes (firstn j (gi_chunks g))).
+Definition chunk_ci (fi : file_in) (i : nat) (g : group_in) (j : nat) : N :=
+  group_ci fi i + sizeN (cindex_bytes (firstn j (gi_chunks g))).
+Definition chunk_oi (fi : file_in) (i : nat) (g : group_in) (j : nat) : N :=
+  group_oi fi i + sizeN (oi_bytes (map snd (firstn j (the_cols fi i g)))).
+
+Lemma laid_groups_nth fi i g : nth_error (fi_groups fi) i = Some g ->
+  nth_error (laid_groups fi) i =
+  Some (group_tree (group_off fi i) (N.of_nat i) g (map fst (the_cols fi i g)), map snd (the_cols fi i g)).
+Proof.
+  intros H. unfold laid_groups at 1. cbv zeta.
+  rewrite (lay_groups_nth _ _ _ _ _ _ _ H). cbv zeta.
+  rewrite lay_groups_firstn. reflexivity.
+Qed.
+
+Lemma the_cols_nth fi i g j c : nth_error (gi_chunks g) j = Some c ->
+  nth_error (the_cols fi i g) j =
+  Some (chunk_tree (chunk_off fi i g j) (chunk_bl fi i g j) (chunk_ci fi i g j) (chunk_oi fi i g j)
+          (sizeN (encode (oindex_tree (chunk_off fi i g j) c))) c,
+        oindex_tree (chunk_off fi i g j) c).
+Proof.
+  intros H. unfold the_cols at 1, group_cols.
+  rewrite (lay_chunks_nth _ _ _ _ _ _ _ H). cbv zeta.
+  rewrite lay_chunks_firstn. reflexivity.
+Qed.
+
+(** the entry of column [j] of row group [i] in a FileMetaData tree *)
+Definition footer_chunk (ft : tval) (i j : nat) (gt cc md : tval) : Prop :=
+  exists gts ccs, get_list 4 ft = Some gts /\ nth_error gts i = Some gt /\
+                  get_list 1 gt = Some ccs /\ nth_error ccs j = Some cc /\ get 3 cc = Some md.
+
+Lemma footer_chunk_unique ft i j gt cc md gt' cc' md' :
+  footer_chunk ft i j gt cc md -> footer_chunk ft i j gt' cc' md' -> gt = gt' /\ cc = cc' /\ md = md'.
+Proof.
+  intros (gts & ccs & H1 & H2 & H3 & H4 & H5) (gts' & ccs' & H1' & H2' & H3' & H4' & H5').
+  assert (gts = gts') by congruence. subst gts'. assert (gt = gt') by congruence. subst gt'.
+  assert (ccs = ccs') by congruence. subst ccs'. assert (cc = cc') by congruence. subst cc'.
+  repeat split; congruence.
+Qed.
+
+Definition the_group_tree (fi : file_in) (i : nat) (g : group_in) : tval :=
+  group_tree (group_off fi i) (N.of_nat i) g (map fst (the_cols fi i g)).
+Definition the_chunk_tree (fi : file_in) (i : nat) (g : group_in) (j : nat) (c : chunk_in) : tval :=
+  chunk_tree (chunk_off fi i g j) (chunk_bl fi i g j) (chunk_ci fi i g j) (chunk_oi fi i g j)
+    (sizeN (encode (oindex_tree (chunk_off fi i g j) c))) c.
+Definition the_meta_tree (fi : file_in) (i : nat) (g : group_in) (j : nat) (c : chunk_in) : tval :=
+  meta_tree (chunk_off fi i g j) (chunk_bl fi i g j) c.
+
+Lemma footer_chunk_layout fi i j g c :
+  nth_error (fi_groups fi) i = Some g -> nth_error (gi_chunks g) j = Some c ->
+  footer_chunk (footer_tree fi) i j (the_group_tree fi i g) (the_chunk_tree fi i g j c) (the_meta_tree fi i g j c).
+Proof.
+  intros Hg Hc. exists (map fst (laid_groups fi)), (map fst (the_cols fi i g)).
+  split; [apply footer_row_groups|].
+  split; [erewrite map_nth_error by (apply laid_groups_nth; exact Hg); reflexivity|].
+  split; [reflexivity|].
+  split; [erewrite map_nth_error by (apply the_cols_nth; exact Hc); reflexivity|].
+  reflexivity.
+Qed.
+
+Lemma groups_at fi : at_offset (layout_bytes fi) (sizeN file_magic) (groups_bytes fi).
+Proof. unfold layout_bytes, assemble. cbv zeta. apply at_offset_mid. Qed.
+
+Lemma group_at fi i g : nth_error (fi_groups fi) i = Some g ->
+  at_offset (layout_bytes fi) (group_off fi i) (group_bytes g).
+Proof.
+  intros H. unfold group_off. eapply at_offset_trans; [apply groups_at|].
+  unfold groups_bytes, groups_bytes_of. now apply at_offset_concat.
+Qed.
+
+Lemma chunk_at fi i g j c :
+  nth_error (fi_groups fi) i = Some g -> nth_error (gi_chunks g) j = Some c ->
+  at_offset (layout_bytes fi) (chunk_off fi i g j) (chunk_bytes c).
+Proof.
+  intros Hg Hc. unfold chunk_off.
+  eapply at_offset_trans; [apply (group_at fi i g Hg)|].
+  replace (sizeN (pages_bytes (firstn j (gi_chunks g)))) with (0 + sizeN (pages_bytes (firstn j (gi_chunks g)))) by lia.
+  eapply at_offset_trans; [unfold group_bytes; apply at_offset_head|].
+  unfold pages_bytes. now apply at_offset_concat.
+Qed.
+
+Lemma bloom_at fi i g j c :
+  nth_error (fi_groups fi) i = Some g -> nth_error (gi_chunks g) j = Some c ->
+  at_offset (layout_bytes fi) (chunk_bl fi i g j) (ck_bloom c).
+Proof.
+  intros Hg Hc. unfold chunk_bl. rewrite <- N.add_assoc.
+  eapply at_offset_trans; [apply (group_at fi i g Hg)|].
+  eapply at_offset_trans.
+  - unfold group_bytes. rewrite <- (app_nil_r (blooms_bytes (gi_chunks g))). apply at_offset_mid.
+  - unfold blooms_bytes. now apply at_offset_concat.
+Qed.
+
+Lemma cindexes_at fi : at_offset (layout_bytes fi) (cindex_start fi) (cindexes_bytes fi).
+Proof.
+  unfold layout_bytes, assemble, cindex_start. cbv zeta. rewrite <- sizeN_app.
+  rewrite (app_assoc file_magic). apply at_offset_mid.
+Qed.
+
+Lemma cindex_at fi i g j c :
+  nth_error (fi_groups fi) i = Some g -> nth_error (gi_chunks g) j = Some c ->
+  at_offset (layout_bytes fi) (chunk_ci fi i g j) (ck_cindex c).
+Proof.
+  intros Hg Hc. unfold chunk_ci, group_ci. rewrite <- N.add_assoc.
+  eapply at_offset_trans; [apply cindexes_at|].
+  eapply at_offset_trans.
+  - unfold cindexes_bytes, cindexes_bytes_of. apply (at_offset_concat (fun g => cindex_bytes (gi_chunks g)) _ _ _ Hg).
+  - unfold cindex_bytes. now apply at_offset_concat.
+Qed.
+
+Lemma oindexes_at fi : at_offset (layout_bytes fi) (oindex_start fi) (oindexes_bytes fi).
+Proof.
+  unfold layout_bytes, assemble, oindex_start, cindex_start. cbv zeta. rewrite <- !sizeN_app.
+  rewrite <- app_assoc.
+  rewrite (app_assoc (groups_bytes fi)), (app_assoc file_magic). apply at_offset_mid.
+Qed.
+
+Lemma oindex_at fi i g j c :
+  nth_error (fi_groups fi) i = Some g -> nth_error (gi_chunks g) j = Some c ->
+  at_offset (layout_bytes fi) (chunk_oi fi i g j) (encode (oindex_tree (chunk_off fi i g j) c)).
+Proof.
+  intros Hg Hc. unfold chunk_oi, group_oi. rewrite <- N.add_assoc.
+  eapply at_offset_trans; [apply oindexes_at|].
+  eapply at_offset_trans.
+  - unfold oindexes_bytes, oindexes_of.
+    apply (at_offset_concat (fun gl => oi_bytes (snd gl)) _ _ _ (laid_groups_nth fi i g Hg)).
+  - cbn [snd]. unfold oi_bytes. rewrite !map_map.
+    apply (at_offset_concat (fun x => encode (snd x)) _ _ _ (the_cols_nth fi i g j c Hc)).
+Qed.
+
+(** * (b) Column chunks: the recorded start and size slice the pages written;
+      walking the headers reads them back *)
+
+Lemma forallb_nth_error {A} (f : A -> bool) l i x :
+  forallb f l = true -> nth_error l i = Some x -> f x = true.
+Proof. intros H Hn. rewrite forallb_forall in H. apply H. eapply nth_error_In; eauto. Qed.
+
+Lemma chunk_ok_at fi i j g c : file_ok fi = true ->
+  nth_error (fi_groups fi) i = Some g -> nth_error (gi_chunks g) j = Some c ->
+  chunk_ok c = true /\ ids_between RG_NumRows RG_FileOffset (gi_sorting g) = true /\
+  forallb chunk_ok (gi_chunks g) = true.
+Proof.
+  intros Hok Hg Hc. destruct (file_ok_parts fi Hok) as (Hgs & _).
+  pose proof (forallb_nth_error _ _ _ _ Hgs Hg) as Hgo. unfold group_ok in Hgo.
+  apply andb_true_iff in Hgo. destruct Hgo as [Hcs Hs].
+  split; [exact (forallb_nth_error _ _ _ _ Hcs Hc)|]. split; assumption.
+Qed.
+
+Lemma group_off_pos fi i : 0 < group_off fi i.
+Proof. unfold group_off. assert (H : sizeN file_magic = 4) by reflexivity. lia. Qed.
+
+Lemma chunk_off_pos fi i g j : 0 < chunk_off fi i g j.
+Proof. unfold chunk_off. pose proof (group_off_pos fi i). lia. Qed.
+
+Definition all_pages (c : chunk_in) : list page_in := dict_pages c ++ ck_pages c.
+
+Lemma chunk_bytes_pages c : chunk_bytes c = concat (map page_bytes (all_pages c)).
+Proof. unfold chunk_bytes, dict_bytes, all_pages. now rewrite map_app, concat_app. Qed.
+
+Lemma pages_count_le ps : (length ps <= length (concat (map page_bytes ps)))%nat.
+Proof.
+  induction ps as [|p ps IH]; [cbn; lia|]. cbn [map concat length]. rewrite app_length.
+  assert (1 <= length (page_bytes p))%nat.
+  { unfold page_bytes. rewrite app_length. pose proof (header_bytes_nonempty p). lia. }
+  lia.
+Qed.
+
+Lemma chunk_ok_pages c : chunk_ok c = true ->
+  forallb (page_ok true) (dict_pages c) = true /\ forallb (page_ok false) (ck_pages c) = true /\
+  forallb page_ok_any (all_pages c) = true.
+Proof.
+  unfold chunk_ok. rewrite !andb_true_iff. intros (((((Hd & Hp) & _) & _) & _) & _).
+  split; [exact Hd|]. split; [exact Hp|].
+  unfold all_pages. rewrite forallb_app. apply andb_true_iff. split.
+  - rewrite forallb_forall in *. intros p Hin. eapply page_ok_any_of; eauto.
+  - rewrite forallb_forall in *. intros p Hin. eapply page_ok_any_of; eauto.
+Qed.
+
+Theorem layout_chunk_pages fi i j g c gt cc md :
+  file_ok fi = true ->
+  nth_error (fi_groups fi) i = Some g -> nth_error (gi_chunks g) j = Some c ->
+  footer_chunk (footer_tree fi) i j gt cc md ->
+  let start := chunk_start md in
+  let total := nat_of_field 7 md in
+  start = chunk_off fi i g j /\
+  fsub (mk_fbytes (layout_bytes fi)) start total = Some (chunk_bytes c) /\
+  walk_pages (S total) (chunk_bytes c) start = Some (written_pages start (all_pages c)).
+Proof.
+  intros Hok Hg Hc Hfc. cbv zeta.
+  destruct (footer_chunk_unique _ _ _ _ _ _ _ _ _ Hfc (footer_chunk_layout fi i j g c Hg Hc)) as (-> & -> & ->).
+  destruct (chunk_ok_at fi i j g c Hok Hg Hc) as (Hck & _).
+  unfold the_meta_tree.
+  rewrite (meta_chunk_start _ _ _ Hck (chunk_off_pos fi i g j)).
+  rewrite nat_of_n_of_field, (meta_total_comp _ _ _ Hck), chunk_total_comp_size by exact Hck.
+  replace (N.to_nat (sizeN (chunk_bytes c))) with (length (chunk_bytes c)) by (unfold sizeN; lia).
+  split; [reflexivity|]. split.
+  - apply at_offset_fsub. now apply chunk_at.
+  - rewrite chunk_bytes_pages. apply walk_pages_written.
+    + apply (chunk_ok_pages c Hck).
+    + pose proof (pages_count_le (all_pages c)). lia.
+Qed.
+
+(** the sums the specification decoder recomputes (check_chunk) over the pages found *)
+
+Lemma sumN_fold (l : list nat) : sumN l = fold_left N.add (map N.of_nat l) 0.
+Proof.
+  unfold sumN. generalize 0. induction l as [|x l IH]; intros a; [reflexivity|].
+  cbn [fold_left map]. apply IH.
+Qed.
+
+Definition is_data_page (hp : hpage) : bool := negb (zdef (get_int 1 (h_header hp)) (-1) =? 2)%Z.
+
+Lemma written_filter_dict off ps : forallb (page_ok true) ps = true ->
+  filter is_data_page (written_pages off ps) = [].
+Proof.
+  revert off. induction ps as [|p ps IH]; intros off H; [reflexivity|].
+  cbn [forallb] in H. apply andb_true_iff in H. destruct H as [Hp Hps].
+  cbn [written_pages filter]. unfold is_data_page at 1. cbn [h_header]. rewrite header_type. cbn [zdef].
+  unfold page_ok in Hp. rewrite !andb_true_iff in Hp. destruct Hp as ((((Ht & _) & _) & _) & _).
+  rewrite Ht. cbn [negb]. now apply IH.
+Qed.
+
+Lemma written_filter_data off ps : forallb (page_ok false) ps = true ->
+  filter is_data_page (written_pages off ps) = written_pages off ps.
+Proof.
+  revert off. induction ps as [|p ps IH]; intros off H; [reflexivity|].
+  cbn [forallb] in H. apply andb_true_iff in H. destruct H as [Hp Hps].
+  cbn [written_pages filter]. unfold is_data_page at 1. cbn [h_header]. rewrite header_type. cbn [zdef].
+  unfold page_ok in Hp. rewrite !andb_true_iff in Hp. destruct Hp as ((((Ht & _) & _) & _) & _).
+  assert (E : (pg_type p =? 2)%Z = false) by lia. rewrite E. cbn [negb]. f_equal. now apply IH.
+Qed.
+
+Lemma dict_pages_size c : fold_left N.add (map comp_size (dict_pages c)) 0 = sizeN (dict_bytes c).
+Proof. unfold dict_bytes. now rewrite pages_bytes_size. Qed.
+
+Lemma written_data_pages off c : chunk_ok c = true ->
+  filter is_data_page (written_pages off (all_pages c)) = written_pages (data_offset off c) (ck_pages c).
+Proof.
+  intros Hck. destruct (chunk_ok_pages c Hck) as (Hd & Hp & _).
+  unfold all_pages. rewrite written_pages_app, filter_app, written_filter_dict, written_filter_data by assumption.
+  cbn [app]. unfold data_offset. now rewrite dict_pages_size.
+Qed.
+
+Lemma written_nvalues off ps :
+  map (fun hp => header_nvalues (h_header hp)) (written_pages off ps) = map pg_nvalues ps.
+Proof.
+  revert off. induction ps as [|p ps IH]; intros off; [reflexivity|].
+  cbn [written_pages map h_header]. now rewrite header_nvalues_page, IH.
+Qed.
+
+Lemma written_uncomp off ps :
+  map (fun hp => N.of_nat (h_hlen hp + nat_of_field 2 (h_header hp))) (written_pages off ps) = map uncomp_size ps.
+Proof.
+  revert off. induction ps as [|p ps IH]; intros off; [reflexivity|].
+  cbn [written_pages map h_header h_hlen]. rewrite IH. f_equal.
+  rewrite nat_of_n_of_field, header_uncomp. unfold uncomp_size, header_size, sizeN. lia.
+Qed.
+
+Lemma fold_add_perm2 a b : fold_left N.add (a ++ b) 0 = fold_left N.add (b ++ a) 0.
+Proof. rewrite !fold_add_app. lia. Qed.
+
+Theorem layout_chunk_sums fi i j g c gt cc md :
+  file_ok fi = true ->
+  nth_error (fi_groups fi) i = Some g -> nth_error (gi_chunks g) j = Some c ->
+  footer_chunk (footer_tree fi) i j gt cc md ->
+  let ps := written_pages (chunk_start md) (all_pages c) in
+  let dps := filter is_data_page ps in
+  sumN (map (fun hp => (h_hlen hp + h_comp hp)%nat) ps) = n_of_field 7 md /\
+  sumN (map (fun hp => (h_hlen hp + nat_of_field 2 (h_header hp))%nat) ps) = n_of_field 6 md /\
+  fold_left N.add (map (fun hp => header_nvalues (h_header hp)) dps) 0 = n_of_field 5 md /\
+  match dps with hp :: _ => h_offset hp = n_of_field 9 md | [] => True end /\
+  match ps with
+  | hp :: _ => if is_data_page hp then n_of_field 11 md = 0 else h_offset hp = n_of_field 11 md
+  | [] => True
+  end.
+Proof.
+  intros Hok Hg Hc Hfc. cbv zeta.
+  destruct (footer_chunk_unique _ _ _ _ _ _ _ _ _ Hfc (footer_chunk_layout fi i j g c Hg Hc)) as (-> & -> & ->).
+  destruct (chunk_ok_at fi i j g c Hok Hg Hc) as (Hck & _).
+  unfold the_meta_tree.
+  rewrite (meta_chunk_start _ _ _ Hck (chunk_off_pos fi i g j)).
+  rewrite (meta_total_comp _ _ _ Hck), (meta_total_uncomp _ _ _ Hck), (meta_num_values _ _ _ Hck),
+    (meta_data_offset _ _ _ Hck), (meta_dict_offset _ _ _ Hck).
+  set (off := chunk_off fi i g j).
+  rewrite (written_data_pages off c Hck).
+  repeat split.
+  - rewrite sumN_fold, map_map, written_sizes. unfold chunk_total_comp, all_pages. rewrite !map_app. apply fold_add_perm2.
+  - rewrite sumN_fold, map_map, written_uncomp. unfold chunk_total_uncomp, all_pages. rewrite !map_app. apply fold_add_perm2.
+  - rewrite written_nvalues. reflexivity.
+  - destruct (ck_pages c); [exact I|reflexivity].
+  - unfold all_pages, dict_pages, dict_offset. destruct (chunk_ok_pages c Hck) as (Hd & Hp & _).
+    destruct (ck_dict c) as [d|] eqn:Ed.
+    + cbn [app written_pages]. unfold is_data_page. cbn [h_header h_offset]. rewrite header_type. cbn [zdef].
+      unfold dict_pages in Hd. rewrite Ed in Hd. cbn [forallb] in Hd. rewrite andb_true_r in Hd.
+      unfold page_ok in Hd. rewrite !andb_true_iff in Hd. destruct Hd as ((((Ht & _) & _) & _) & _).
+      rewrite Ht. reflexivity.
+    + cbn [app]. destruct (ck_pages c) as [|p ps] eqn:Ep; [exact I|].
+      cbn [written_pages]. unfold is_data_page. cbn [h_header]. rewrite header_type. cbn [zdef].
+      cbn [forallb] in Hp. apply andb_true_iff in Hp. destruct Hp as [Hp _].
+      unfold page_ok in Hp. rewrite !andb_true_iff in Hp. destruct Hp as ((((Ht & _) & _) & _) & _).
+      assert (E : (pg_type p =? 2)%Z = false) by lia. rewrite E. reflexivity.
+Qed.
+
+(** * (c) The offset index: found where the ColumnChunk says, it decodes to
+      one PageLocation per data page, each pointing at the header of its page *)
+
+Lemma loc_tree_offset l : n_of_field 1 (loc_tree l) = pl_offset l.
+Proof. unfold n_of_field, get_int, get, loc_tree. cbn [field PL_Offset Z.eqb Pos.eqb]. apply n_of_i64. Qed.
+
+Lemma loc_tree_size l : n_of_field 2 (loc_tree l) = pl_size l.
+Proof. unfold n_of_field, get_int, get, loc_tree. cbn [field PL_Offset PL_CompressedPageSize Z.eqb Pos.eqb]. apply n_of_i64. Qed.
+
+Lemma loc_tree_first_row l : n_of_field 3 (loc_tree l) = pl_first_row l.
+Proof.
+  unfold n_of_field, get_int, get, loc_tree.
+  cbn [field PL_Offset PL_CompressedPageSize PL_FirstRowIndex Z.eqb Pos.eqb]. apply n_of_i64.
+Qed.
+
+(* first_row_index of the pages: rows of the pages before *)
+Fixpoint row_starts (nr : N) (ps : list page_in) : list N :=
+  match ps with
+  | [] => []
+  | p :: r => nr :: row_starts (nr + pg_nrows p) r
+  end.
+
+(* a PageLocation describes a page found by walking the chunk *)
+Definition loc_points_at (loc : tval) (hp : hpage) : Prop :=
+  n_of_field 1 loc = h_offset hp /\ nat_of_field 2 loc = (h_hlen hp + h_comp hp)%nat.
+
+Lemma locs_point_at dpo : forall ps tc nr,
+  Forall2 loc_points_at (map loc_tree (rebase dpo (record_pages tc nr ps))) (written_pages (dpo + tc) ps) /\
+  map (n_of_field 3) (map loc_tree (rebase dpo (record_pages tc nr ps))) = row_starts nr ps.
+Proof.
+  induction ps as [|p ps IH]; intros tc nr; [split; [constructor|reflexivity]|].
+  cbn [record_pages]. cbv zeta. cbn [rebase map written_pages row_starts].
+  destruct (IH (tc + comp_size p) (nr + pg_nrows p)) as [IH1 IH2]. split.
+  - constructor.
+    + split.
+      * rewrite loc_tree_offset. cbn [pl_offset h_offset]. lia.
+      * rewrite nat_of_n_of_field, loc_tree_size. cbn [pl_size h_hlen h_comp]. rewrite comp_size_nat. lia.
+    + replace (dpo + tc + comp_size p) with (dpo + (tc + comp_size p)) by lia. exact IH1.
+  - rewrite loc_tree_first_row. cbn [pl_first_row]. f_equal. exact IH2.
+Qed.
+
+Lemma oindex_locations off c :
+  get_list 1 (oindex_tree off c) = Some (map loc_tree (chunk_locs off c)).
+Proof. reflexivity. Qed.
+
+Lemma oindex_ok_at fi i j g c : file_ok fi = true ->
+  nth_error (fi_groups fi) i = Some g -> nth_error (gi_chunks g) j = Some c ->
+  wfb (oindex_tree (chunk_off fi i g j) c) = true /\ (need (oindex_tree (chunk_off fi i g j) c) <=? 64)%nat = true.
+Proof.
+  intros Hok Hg Hc. destruct (file_ok_parts fi Hok) as (_ & _ & _ & Hoi & _).
+  pose proof (forallb_nth_error _ _ _ _ Hoi (laid_groups_nth fi i g Hg)) as H1. cbn [snd] in H1.
+  assert (Hn : nth_error (map snd (the_cols fi i g)) j = Some (oindex_tree (chunk_off fi i g j) c)).
+  { erewrite map_nth_error by (apply the_cols_nth; exact Hc). reflexivity. }
+  pose proof (forallb_nth_error _ _ _ _ H1 Hn) as H2. now apply andb_true_iff in H2.
+Qed.
+
+Theorem layout_offset_index fi i j g c gt cc md :
+  file_ok fi = true ->
+  nth_error (fi_groups fi) i = Some g -> nth_error (gi_chunks g) j = Some c ->
+  footer_chunk (footer_tree fi) i j gt cc md ->
+  exists raw oi locs,
+    fsub (mk_fbytes (layout_bytes fi)) (n_of_field 4 cc) (nat_of_field 5 cc) = Some raw /\
+    decode_thrift raw = Some (oi, []) /\
+    get_list 1 oi = Some locs /\
+    Forall2 loc_points_at locs (filter is_data_page (written_pages (chunk_start md) (all_pages c))) /\
+    map (n_of_field 3) locs = row_starts 0 (ck_pages c).
+Proof.
+  intros Hok Hg Hc Hfc.
+  destruct (footer_chunk_unique _ _ _ _ _ _ _ _ _ Hfc (footer_chunk_layout fi i j g c Hg Hc)) as (-> & -> & ->).
+  destruct (chunk_ok_at fi i j g c Hok Hg Hc) as (Hck & _).
+  destruct (oindex_ok_at fi i j g c Hok Hg Hc) as (Hw & Hn).
+  set (off := chunk_off fi i g j) in *.
+  exists (encode (oindex_tree off c)), (oindex_tree off c), (map loc_tree (chunk_locs off c)).
+  unfold the_chunk_tree, the_meta_tree. fold off.
+  rewrite chunk_tree_oi_offset, nat_of_n_of_field, chunk_tree_oi_length.
+  replace (N.to_nat (sizeN (encode (oindex_tree off c)))) with (length (encode (oindex_tree off c))) by (unfold sizeN; lia).
+  split; [apply at_offset_fsub; subst off; now apply oindex_at|].
+  split.
+  { rewrite <- (app_nil_r (encode (oindex_tree off c))).
+    apply decode_thrift_encode; [exact Hw|exact Hn|unfold oindex_tree; eauto]. }
+  split; [apply oindex_locations|].
+  rewrite (meta_chunk_start _ _ _ Hck (chunk_off_pos fi i g j)). fold off.
+  rewrite (written_data_pages off c Hck). unfold chunk_locs.
+  destruct (locs_point_at (data_offset off c) (ck_pages c) 0 0) as [H1 H2].
+  rewrite N.add_0_r in H1. split; assumption.
+Qed.
+
+(** the column index and bloom filter sections are where the metadata says *)
+Theorem layout_column_index fi i j g c gt cc md :
+  file_ok fi = true ->
+  nth_error (fi_groups fi) i = Some g -> nth_error (gi_chunks g) j = Some c ->
+  footer_chunk (footer_tree fi) i j gt cc md ->
+  ck_cindex c <> [] ->
+  fsub (mk_fbytes (layout_bytes fi)) (n_of_field 6 cc) (nat_of_field 7 cc) = Some (ck_cindex c).
+Proof.
+  intros Hok Hg Hc Hfc Hne.
+  destruct (footer_chunk_unique _ _ _ _ _ _ _ _ _ Hfc (footer_chunk_layout fi i j g c Hg Hc)) as (-> & -> & ->).
+  unfold the_chunk_tree. rewrite chunk_tree_ci_offset, nat_of_n_of_field, chunk_tree_ci_length.
+  replace (N.to_nat (sizeN (ck_cindex c))) with (length (ck_cindex c)) by (unfold sizeN; lia).
+  destruct (ck_cindex c) eqn:E; [congruence|]. rewrite <- E.
+  apply at_offset_fsub. now apply cindex_at.
+Qed.
+
+Section MetaBloom.
+  Variables (off bl : N) (c : chunk_in).
+  Hypothesis Hok : chunk_ok c = true.
+
+  Lemma meta_bloom_field id : (13 < id < 16)%Z ->
+    field id (fields_of (meta_tree off bl c)) =
+    field id (match ck_bloom c with
+              | [] => []
+              | _ :: _ => opt_i64 CM_BloomFilterOffset bl ++ opt_i32 CM_BloomFilterLength (sizeN (ck_bloom c))
+              end).
+  Proof.
+    intros Hid. unfold chunk_ok in Hok. rewrite !andb_true_iff in Hok.
+    destruct Hok as (((((_ & _) & H1) & H2) & H3) & H4).
+    unfold meta_tree, fields_of.
+    rewrite field_app, (field_ids_between _ _ _ id H1) by (unfold CM_NumValues; lia).
+    cbn [field]. unfold CM_NumValues, CM_TotalUncompressedSize, CM_TotalCompressedSize.
+    destruct (Z.eqb_spec 5 id); [lia|]. destruct (Z.eqb_spec 6 id); [lia|]. destruct (Z.eqb_spec 7 id); [lia|].
+    rewrite field_app, (field_ids_between _ _ _ id H2) by (unfold CM_DataPageOffset; lia).
+    cbn [field]. unfold CM_DataPageOffset. destruct (Z.eqb_spec 9 id); [lia|].
+    rewrite field_opt_i64. unfold CM_DictionaryPageOffset at 1. destruct (Z.eqb_spec 11 id); [lia|]. cbn [andb].
+    rewrite field_app, (field_ids_between _ _ _ id H3) by (unfold CM_BloomFilterOffset; lia).
+    rewrite field_app, (field_ids_between _ _ _ id H4) by (unfold CM_BloomFilterLength; lia).
+    destruct (field id _); reflexivity.
+  Qed.
+
+  Lemma meta_bloom_offset : n_of_field 14 (meta_tree off bl c) = match ck_bloom c with [] => 0 | _ => bl end.
+  Proof.
+    apply (n_of_field_opt _ _ _ T_I64).
+    change (field 14 (fields_of (meta_tree off bl c)) =
+            (if negb (match ck_bloom c with [] => 0 | _ => bl end =? 0) then Some (TInt T_I64 (Z.of_N (match ck_bloom c with [] => 0 | _ => bl end))) else None)).
+    rewrite meta_bloom_field by lia.
+    destruct (ck_bloom c); [reflexivity|].
+    rewrite field_opt_i64. unfold CM_BloomFilterOffset at 1. cbn [Z.eqb Pos.eqb andb].
+    destruct (negb (bl =? 0)); [reflexivity|].
+    rewrite <- (app_nil_r (opt_i32 _ _)), field_opt_i32. reflexivity.
+  Qed.
+
+  Lemma meta_bloom_length : n_of_field 15 (meta_tree off bl c) = sizeN (ck_bloom c).
+  Proof.
+    apply (n_of_field_opt _ _ _ T_I32).
+    change (field 15 (fields_of (meta_tree off bl c)) =
+            (if negb (sizeN (ck_bloom c) =? 0) then Some (TInt T_I32 (Z.of_N (sizeN (ck_bloom c)))) else None)).
+    rewrite meta_bloom_field by lia.
+    destruct (ck_bloom c) eqn:E; [reflexivity|]. rewrite <- E.
+    rewrite field_opt_i64. unfold CM_BloomFilterOffset at 1. cbn [Z.eqb Pos.eqb andb].
+    rewrite <- (app_nil_r (opt_i32 _ _)), field_opt_i32. unfold CM_BloomFilterLength at 1. cbn [Z.eqb Pos.eqb andb].
+    destruct (negb (sizeN (ck_bloom c) =? 0)); reflexivity.
+  Qed.
+End MetaBloom.
+
+Theorem layout_bloom_filter fi i j g c gt cc md :
+  file_ok fi = true ->
+  nth_error (fi_groups fi) i = Some g -> nth_error (gi_chunks g) j = Some c ->
+  footer_chunk (footer_tree fi) i j gt cc md ->
+  ck_bloom c <> [] ->
+  fsub (mk_fbytes (layout_bytes fi)) (n_of_field 14 md) (nat_of_field 15 md) = Some (ck_bloom c).
+Proof.
+  intros Hok Hg Hc Hfc Hne.
+  destruct (footer_chunk_unique _ _ _ _ _ _ _ _ _ Hfc (footer_chunk_layout fi i j g c Hg Hc)) as (-> & -> & ->).
+  destruct (chunk_ok_at fi i j g c Hok Hg Hc) as (Hck & _).
+  unfold the_meta_tree. rewrite (meta_bloom_offset _ _ _ Hck), nat_of_n_of_field, (meta_bloom_length _ _ _ Hck).
+  replace (N.to_nat (sizeN (ck_bloom c))) with (length (ck_bloom c)) by (unfold sizeN; lia).
+  destruct (ck_bloom c) eqn:E; [congruence|]. rewrite <- E.
+  apply at_offset_fsub. now apply bloom_at.
+Qed.
+
+(** * (d) Row groups and the file: offsets and totals are the recomputed sums *)
+
+Definition md_of (cc : tval) : tval := match get 3 cc with Some md => md | None => TStruct [] end.
+
+Lemma lay_chunks_totals : forall cs off bl ci oi, forallb chunk_ok cs = true ->
+  map (fun cc => n_of_field 7 (md_of cc)) (map fst (lay_chunks off bl ci oi cs)) = map chunk_total_comp cs /\
+  map (fun cc => n_of_field 6 (md_of cc)) (map fst (lay_chunks off bl ci oi cs)) = map chunk_total_uncomp cs.
+Proof.
+  induction cs as [|c cs IH]; intros off bl ci oi H; [split; reflexivity|].
+  cbn [forallb] in H. apply andb_true_iff in H. destruct H as [Hc Hcs].
+  cbn [lay_chunks]. cbv zeta. cbn [map fst].
+  destruct (IH (off + sizeN (chunk_bytes c)) (bl + sizeN (ck_bloom c)) (ci + sizeN (ck_cindex c))
+              (oi + sizeN (encode (oindex_tree off c))) Hcs) as [IH1 IH2].
+  unfold md_of at 1 3. rewrite chunk_tree_meta.
+  rewrite (meta_total_comp _ _ _ Hc), (meta_total_uncomp _ _ _ Hc). split; f_equal; assumption.
+Qed.
+
+Theorem layout_row_group fi i g gt :
+  file_ok fi = true -> nth_error (fi_groups fi) i = Some g ->
+  (exists gts, get_list 4 (footer_tree fi) = Some gts /\ nth_error gts i = Some gt) ->
+  exists ccs, get_list 1 gt = Some ccs /\ length ccs = length (gi_chunks g) /\
+    n_of_field 5 gt = group_off fi i /\
+    at_offset (layout_bytes fi) (n_of_field 5 gt) (group_bytes g) /\
+    (forall cc, nth_error ccs 0 = Some cc -> chunk_start (md_of cc) = n_of_field 5 gt) /\
+    fold_left N.add (map (fun cc => n_of_field 7 (md_of cc)) ccs) 0 = n_of_field 6 gt /\
+    fold_left N.add (map (fun cc => n_of_field 6 (md_of cc)) ccs) 0 = n_of_field 2 gt.
+Proof.
+  intros Hok Hg (gts & Hgts & Hgt).
+  rewrite footer_row_groups in Hgts. inversion Hgts. subst gts. clear Hgts.
+  erewrite map_nth_error in Hgt by (apply laid_groups_nth; exact Hg). cbn [fst] in Hgt.
+  inversion Hgt. subst gt. clear Hgt.
+  destruct (file_ok_parts fi Hok) as (Hgs & _).
+  pose proof (forallb_nth_error _ _ _ _ Hgs Hg) as Hgo. unfold group_ok in Hgo.
+  apply andb_true_iff in Hgo. destruct Hgo as [Hcs Hs].
+  exists (map fst (the_cols fi i g)).
+  rewrite group_tree_columns, (group_tree_file_offset _ _ _ _ Hs), (group_tree_total_compressed_size _ _ _ _ Hs),
+    group_tree_total_byte_size.
+  split; [reflexivity|].
+  split; [unfold the_cols, group_cols; now rewrite map_length, lay_chunks_length|].
+  split; [reflexivity|].
+  split; [now apply group_at|].
+  split.
+  - intros cc Hcc. destruct (gi_chunks g) as [|c0 cs] eqn:Ecs.
+    + unfold the_cols, group_cols in Hcc. rewrite Ecs in Hcc. cbn in Hcc. discriminate.
+    + assert (Hc0 : nth_error (gi_chunks g) 0 = Some c0) by (rewrite Ecs; reflexivity).
+      erewrite map_nth_error in Hcc by (apply the_cols_nth; exact Hc0). cbn [fst] in Hcc.
+      inversion Hcc. subst cc. unfold md_of. rewrite chunk_tree_meta.
+      rewrite meta_chunk_start; [|cbn [forallb] in Hcs; now apply andb_true_iff in Hcs|apply chunk_off_pos].
+      unfold chunk_off. cbn [firstn]. unfold pages_bytes. cbn [map concat]. rewrite sizeN_nil. lia.
+  - unfold the_cols, group_cols.
+    destruct (lay_chunks_totals (gi_chunks g) (group_off fi i) (group_off fi i + sizeN (pages_bytes (gi_chunks g)))
+                (group_ci fi i) (group_oi fi i) Hcs) as [H1 H2].
+    rewrite H1, H2. split; reflexivity.
+Qed.
+
+Lemma lay_groups_rows : forall gs off ci oi ord,
+  map (fun gt => n_of_field 3 gt) (map fst (lay_groups off ci oi ord gs)) = map group_num_rows gs.
+Proof.
+  induction gs as [|g gs IH]; intros; [reflexivity|].
+  cbn [lay_groups]. cbv zeta. cbn [map fst]. rewrite group_tree_num_rows, IH. reflexivity.
+Qed.
+
+Theorem layout_file_rows fi :
+  exists gts, get_list 4 (footer_tree fi) = Some gts /\ length gts = length (fi_groups fi) /\
+    fold_left N.add (map (fun gt => n_of_field 3 gt) gts) 0 = n_of_field 3 (footer_tree fi).
+Proof.
+  exists (map fst (laid_groups fi)). split; [apply footer_row_groups|].
+  split; [unfold laid_groups; cbv zeta; now rewrite map_length, lay_groups_length|].
+  rewrite footer_num_rows. unfold laid_groups. cbv zeta. now rewrite lay_groups_rows.
 Qed.
